@@ -14,6 +14,14 @@ CONSTANTS
   AllowAdd = TRUE
   AllowDw = TRUE
   AllowReuse = FALSE
+  PMs = {"zeros"}
+  Ds = {1}
+  Ss = {1}
+  Biases = {TRUE}
+  Batches = {1, 4}
+  Alphabet = "classic"
+  FwdImpl = "plain"
+  ExpImpl = "fresh"
   TupMode = "one"
   WType = "pl"
   SelMode = "rot"
